@@ -9,16 +9,17 @@ from oracle import validate
 ID = "C10"
 LEVEL = "proof"
 DESIGN_REF = "DESIGN.md §9 C10, §12.C10"
-COQ_TARGETS = ["Properties/C10", "Pins/C10", "Storage/RunValid"]
-THEOREMS = [("PdfV.Properties.C10", n) for n in ["C10_offsets", "C10_xref_consistent", "C10_startxref"]]
+COQ_TARGETS = ["Properties/C10", "Pins/C10", "Storage/RunValid", "Storage/RunBuild"]
+THEOREMS = [("PdfV.Properties.C10", n) for n in ["C10_offsets", "C10_xref_consistent", "C10_startxref", "C10_valid_struct", "C10_reload", "C10_load", "C10_build_state"]]
 ANCHORS = ["file.rs", "xref.rs"]
-MODES = ["accepts"]
+MODES = ["accepts", "build_bytes"]
 TRUSTED_BASE = ["coqc 8.16.1 kernel (vm_compute for examples and table lemmas)",
                 "gen/extract_storage.py (literals of save / write_stream / byte_len)",
                 "Extraction + ExtrOcamlBasic, ocamlfind ocamlopt 4.13.1, coq/driver/main.ml (the extracted valid_code is run on the implementation's bytes)",
                 "harness pdfh (modes build, accepts), tools/vplib, tools/oracle/validate.py (python twin of Storage/Valid.v), tools/oracle/canon.py"]
-ASSUMPTIONS = ["the theorems are about Storage::save on every well-formed state; PdfBuilder/CatalogBuilder are modelled only as the example program Properties/C10.v: build_one_page (the builder itself is tied by the `build` correspondence against the specification, not by a Gallina model)",
-               "valid_pdf of the produced bytes is evaluated (extracted Coq validator + python twin) on every generated document, not proved universally (C10_full_statement is stated, not proved)"]
+ASSUMPTIONS = ["PdfBuilder/CatalogBuilder are the Gallina program Storage/Builder.v: build for arbitrary page lists (operations as the already serialised content stream: serialize_ops is C08's; default Resources; no metadata/lgi/vp); mode build_bytes compares its bytes with the real builder's byte for byte",
+               "C10_reload: the values the caller supplies are in C04's storable domain (page_ok, info_ok); `reloaded` = a state over the built bytes whose table is the saved table (what load produces: C09_load_table)",
+               "C10_valid_struct is the structural statement valid_struct (Prop, on the bytes and the table the xref stream encodes); the *executable* validator valid_code (own tokeniser over every object body, reference and /Length checks) is evaluated (extracted Coq + python twin) on every generated document, not proved universally (C10_full_statement is stated, not proved)"]
 LEVEL_NOTE = ("proved: offsets of saved objects point at their headers, /W /Index /Length of the xref stream are consistent and decode to the table, "
               "startxref announces the xref stream object (all for every well-formed state); evaluated on every case: the complete structural validator "
               "(Coq, extracted) and its python twin on the real bytes, and the reload view against the builder's input")
@@ -78,6 +79,17 @@ def gen_doc(rng):
 
 def page_line(p):
     return ("mb=%s cb=%s tb=%s rot=%d ops=%s other=" % (rtext(p["mb"]), rtext(p["cb"]), rtext(p["tb"]), p["rot"], p["ops"] or "-")).encode() + canon(p["other"])
+
+
+# content.rs: serialize_ops on the 13-letter alphabet of harness op_of (the operator round trip itself is C08's)
+OP_TEXT = {"q": b"q\n", "Q": b"Q\n", "B": b"BT\n", "E": b"ET\n", "S": b"S\n", "f": b"f\n", "F": b"f*\n", "n": b"n\n", "h": b"h\n",
+           "s": b"s\n", "m": b"10 20 m\n", "l": b"30.5 40 l\n", "M": b"0 -7.25 m\n", "w": b"2.5 w\n"}
+
+
+def model_page_line(p):
+    # serialize_ops writes Close directly followed by Stroke as the single operator `s`
+    ct = b"".join(OP_TEXT[c] for c in p["ops"].replace("hS", "s"))
+    return ("mb=%s cb=%s tb=%s rot=%d ct=%s other=" % (rtext(p["mb"]), rtext(p["cb"]), rtext(p["tb"]), p["rot"], ct.hex())).encode() + canon(p["other"])
 
 
 def info_text(info):
@@ -147,6 +159,11 @@ def generate(rng, tier):
             yield Case("build", [opt] + f[1:], check=check_build(pages, info), model=False, tags=tags + ["cache:" + opt.decode()])
         if r is not None and r[0] == "OK" and r[1]:
             data = r[1][0]
+            # the builder model (Storage/Builder.v: the Gallina program C10_valid_struct / C10_reload are about) must
+            # produce the very bytes the real PdfBuilder produces
+            if sum(len(p["ops"]) for p in pages) < 4000:
+                yield Case("build_bytes", [b"u"] + f[1:], expect=ok(data), model=True,
+                           mfields=[b"\n".join(model_page_line(p) for p in pages), info_text(info)], tags=tags + ["builder-model"])
             yield Case("accepts", [data], check=check_accepts(data), model=len(data) < 60000, tags=tags + ["validator"])
 
 
